@@ -242,6 +242,16 @@ func (rn *runner) codecCase(k int, r *prng.R) {
 			}
 		}
 		o.Count("roundtrip:" + c.name)
+		if c.parse {
+			// value -> bytes direction of the tie: the model encodes the value described by the dump
+			sz := len(b)
+			if c.size != nil {
+				if n, err := safeInt(c.size, v); err == nil && n >= 0 {
+					sz = n
+				}
+			}
+			o.Line("enc "+c.name+" "+want0, fmt.Sprintf("%s size=%d", hx.Hex(b), sz))
+		}
 	}
 	o.Seen(fmt.Sprintf("%s/%s/%x", c.name, mut, hashShort(b)))
 	if k%97 == 0 {
@@ -298,7 +308,7 @@ func tiePaths(obs string) string {
 	return obs
 }
 
-var txPathsModelled = false
+var txPathsModelled = true
 
 func (rn *runner) randomCase(k int, r *prng.R) {
 	c := pickCodec(r)
